@@ -33,6 +33,17 @@ type MapStable struct {
 	onOp  func(op stableOp)
 	// transient READ errors (monitored scenarios only; the model's reads never fail): key -> reads to fail
 	readFail map[string]int
+	// a slow read (scenario family 20): key -> how long the next reads of it take
+	readDelay map[string]time.Duration
+}
+
+func (s *MapStable) delayRead(key string) {
+	s.mu.Lock()
+	d := s.readDelay[key]
+	s.mu.Unlock()
+	if d > 0 {
+		time.Sleep(d)
+	}
 }
 
 var errInjectedRead = errors.New("injected read failure")
@@ -103,6 +114,7 @@ func (s *MapStable) SetUint64(key []byte, val uint64) error {
 }
 
 func (s *MapStable) GetUint64(key []byte) (uint64, error) {
+	s.delayRead(string(key))
 	s.mu.Lock()
 	defer s.mu.Unlock()
 	if s.failRead(string(key)) {
